@@ -238,6 +238,10 @@ def main(argv=None):
     import pymoto  # noqa: F401  (imported once in the parent from the tree under test; workers fork)
     h = importlib.import_module("harness." + prop)
     items = h.items(a.tier)
+    sel = getattr(h, "VIEWS_LAYOUT_ITEMS", None)
+    if callable(sel):
+        # the same items with every input array handed over as a view that is not C-contiguous (same values)
+        items = items + [dict(it, id="%s-viewsin" % it["id"], mem_layout="views") for it in items if sel(it, a.tier)]
     if a.only:
         items = [i for i in items if re.search(a.only, str(i.get("id")))]
     item_timeout = getattr(h, "ITEM_TIMEOUT", {}).get(a.tier, 120 if a.tier == "quick" else 900)
